@@ -151,6 +151,7 @@ def handle (args : List String) : String :=
         ++ " imports=" ++ b (importsOk proj rank) ++ " once=" ++ b (boundOnce proj rank)
         ++ " nobases=" ++ b (noBases proj) ++ " nostarinclass=" ++ b (noStarInClass proj)
         ++ " noreexport=" ++ b (noReexport proj) ++ " roots=" ++ b (rootsReserved proj)
+        ++ " names=" ++ b (namesOk proj)
     | none => "bad-request"
   | _ => "bad-op"
 
